@@ -72,10 +72,27 @@ def status():
     return "\n".join(rows)
 
 
+def asbuilt():
+    man = json.load(open(os.path.join(HERE, "MANIFEST.json")))
+    out = []
+    for c in man["checks"]:
+        pid = c["property_id"]
+        pf = os.path.join(HERE, "coq", "Props", pid + ".v")
+        src = re.sub(r"\(\*.*?\*\)", "", open(pf).read(), flags=re.S)
+        names = re.findall(r"(?m)^\s*(?:Theorem|Lemma|Corollary|Example)\s+(\w+)", src)
+        out.append("### %s (as built)\n" % pid)
+        out.append(c["level_claimed"]["text"] + "\n")
+        out.append("*Trusted / modelled:* " + c["level_note"] + "\n")
+        out.append("*Statements in `coq/Props/%s.v`:* " % pid + ", ".join("`%s`" % n for n in names) + "\n")
+    for n in man.get("not_applicable", []):
+        out.append("### %s — not claimed\n\n%s\n" % (n["property_id"], n["reason"]))
+    return "\n".join(out)
+
+
 def main():
     p = os.path.join(HERE, "DESIGN.md")
     s = open(p).read()
-    for tag, fn in (("findings", findings), ("seeded", seeded), ("status", status)):
+    for tag, fn in (("findings", findings), ("seeded", seeded), ("status", status), ("asbuilt", asbuilt)):
         a, b = "<!-- BEGIN:%s -->" % tag, "<!-- END:%s -->" % tag
         if a in s and b in s:
             s = s[:s.index(a) + len(a)] + "\n" + fn() + "\n" + s[s.index(b):]
